@@ -1,5 +1,217 @@
-import StraxModel.Model.Basic
+import StraxModel.Lemmas.Overlap
+/-
+  Property C09 — overlap-window plugins give chunking-independent results at chunk boundaries.
+
+  Model: `Strax.Overlap` (Model/Overlap.lean): `OverlapWindowPlugin.do_compute` / `cache_beyond` /
+  `iter` and `Plugin.iter` for one dependency.  `runOverlap f (wl, wr) chunks` is the list of chunks a
+  single-output plugin with computation `f` and window `(wl, wr)` yields (the last one is the final
+  flush of the withheld results); `runOverlapMulti` is the multi-output counterpart.
+  Only property theorems and non-vacuity examples live here; the work is in Lemmas/Overlap.lean.
+-/
 namespace Strax.C09
-open Strax
+open Strax Strax.Overlap
+
+/-! ## vocabulary -/
+
+/-- `f` is a per-row, interval-preserving computation whose output for a row `r` depends only on `r`
+and on the rows `n` with `n.endt > r.time − wl ∧ n.time < r.endt + wr` (in their order): there is a
+kernel `g` such that `f rows = [g r (rows near r) | r ∈ rows]`. -/
+def WindowLocal (f : List Row → List Row) (wl wr : Int) : Prop :=
+  ∃ g : Row → List Row → Row, (∀ r ctx, (g r ctx).time = r.time ∧ (g r ctx).endt = r.endt) ∧
+    ∀ rows, f rows = rows.map (fun r => g r (rows.filter (near wl wr r)))
+
+/-- counting the neighbours within the window is window-local … -/
+theorem count_windowLocal (wl wr : Int) : WindowLocal (fCount wl wr) wl wr :=
+  ⟨gCount, fun _ _ => ⟨rfl, rfl⟩, fun _ => rfl⟩
+
+/-- … and so are summing their ids and the identity -/
+theorem sum_windowLocal (wl wr : Int) : WindowLocal (fSum wl wr) wl wr :=
+  ⟨gSum, fun _ _ => ⟨rfl, rfl⟩, fun _ => rfl⟩
+
+theorem ident_windowLocal (wl wr : Int) : WindowLocal fIdent wl wr :=
+  ⟨fun r _ => r, fun _ _ => ⟨rfl, rfl⟩, fun rows => by simp [fIdent]⟩
+
+/-- a run of five disjoint rows in four chunks, two of them shorter than the window, one empty -/
+def exampleRun : List Chunk :=
+  [ ⟨"d0", "k0", some "0", 0, 4, [⟨0, 2, 0⟩, ⟨3, 4, 1⟩], none, [⟨"0", 0, 4⟩], 1000⟩,
+    ⟨"d0", "k0", some "0", 4, 6, [⟨4, 6, 2⟩], none, [⟨"0", 4, 6⟩], 1000⟩,
+    ⟨"d0", "k0", some "0", 6, 6, [], none, [⟨"0", 6, 6⟩], 1000⟩,
+    ⟨"d0", "k0", some "0", 6, 20, [⟨7, 15, 3⟩, ⟨18, 19, 4⟩], none, [⟨"0", 6, 20⟩], 1000⟩ ]
+
+/-- the hypothesis `Stream` is satisfiable by a non-trivial chunking -/
+example : Stream exampleRun := by decide
+
+/-! ## 1. chunking independence
+
+Full statement (DESIGN §6), for every window-local computation including group-forming ones
+(one output row per group of input rows):
+
+    theorem overlap_whole (f) (wl wr) (cs) : Stream cs → WindowLocalG f wl wr → 0 ≤ wl → 0 ≤ wr →
+        ∃ outs, runOverlap f (wl, wr) cs = .ok outs ∧ allRows outs = f (allRows cs)
+
+Proved below for per-row computations (`WindowLocal`), both halves: the plugin does not fail
+(`overlap_total_partial`) and what it yields is the whole-run result (`overlap_whole_partial`).
+Missing for the full statement: a definition of window-locality for group-forming computations
+(groups can be arbitrarily long, so "depends only on rows within the window" has to be phrased on
+group boundaries) and the corresponding induction; gap-grouping and id-parity pairing are covered
+by the correspondence and the oracle of checks/props/c09.py only.
+
+`Stream cs` (decidable): at least one chunk; every chunk an ordinary chunk of the same data type,
+kind and run with `0 ≤ start ≤ end` and every row of positive duration inside it; consecutive
+chunks adjacent; the rows of the whole run pairwise disjoint in order.  The proof uses the
+disjointness only through "sorted by time". -/
+
+/-- totality: on a law-abiding chunking of disjoint rows a window-local per-row plugin never raises -/
+theorem overlap_total_partial (f : List Row → List Row) (wl wr : Int) (cs : List Chunk)
+    (hs : Stream cs) (hf : WindowLocal f wl wr) (hwl : 0 ≤ wl) (hwr : 0 ≤ wr) :
+    ∃ outs, runOverlap f (wl, wr) cs = .ok outs := by
+  obtain ⟨g, hg, hfg⟩ := hf
+  have : f = perRow wl wr g := funext hfg
+  subst this
+  obtain ⟨outs, h, -⟩ := runOverlap_whole (g := g) hg hwl hwr hs
+  exact ⟨outs, h⟩
+
+/-- partial correctness: whatever chunking the input came in, the concatenated output (final flush
+included) is the output of one computation over the whole run: nothing lost, duplicated, reordered
+or computed from incomplete neighbours -/
+theorem overlap_whole_partial (f : List Row → List Row) (wl wr : Int) (cs outs : List Chunk)
+    (hs : Stream cs) (hf : WindowLocal f wl wr)
+    (h : runOverlap f (wl, wr) cs = .ok outs) : allRows outs = f (allRows cs) := by
+  obtain ⟨g, hg, hfg⟩ := hf
+  have : f = perRow wl wr g := funext hfg
+  subst this
+  -- a negative window is rejected by the model, so success implies `0 ≤ wl, wr`
+  have hw : 0 ≤ wl ∧ 0 ≤ wr := by
+    unfold runOverlap at h
+    split at h; · cases h
+    split at h; · cases h
+    split at h; · cases h
+    rename_i c rest _ rid _ _ ds hds
+    simp only [runDicts] at hds
+    split at hds; · cases hds
+    rename_i outs1 st1 hloop
+    unfold iterLoop at hloop
+    split at hloop; · cases hloop
+    rename_i inp buf' _
+    have hd := doCompute_spec1 (perRow wl wr g) (wl, wr) rid c.kind none [] 0 inp
+    have hd' : doCompute (spec1 (perRow wl wr g) (wl, wr) rid) State.init [(c.kind, inp)] = _ := hd
+    rw [hd'] at hloop
+    split at hloop; · cases hloop
+    rename_i out st2 hdc
+    split at hdc; · cases hdc
+    rename_i o cr ci hst
+    obtain ⟨_, _, _, _, _, _, h1, h2, _⟩ := step1_inv hst
+    exact ⟨h1, h2⟩
+  obtain ⟨outs', h', hrows⟩ := runOverlap_whole (g := g) hg hw.1 hw.2 hs
+  rw [h] at h'
+  simp only [Except.ok.injEq] at h'
+  subst h'
+  exact hrows
+
+/-- the two halves together -/
+theorem overlap_whole_total_partial (f : List Row → List Row) (wl wr : Int) (cs : List Chunk)
+    (hs : Stream cs) (hf : WindowLocal f wl wr) (hwl : 0 ≤ wl) (hwr : 0 ≤ wr) :
+    ∃ outs, runOverlap f (wl, wr) cs = .ok outs ∧ allRows outs = f (allRows cs) := by
+  obtain ⟨outs, h⟩ := overlap_total_partial f wl wr cs hs hf hwl hwr
+  exact ⟨outs, h, overlap_whole_partial f wl wr cs outs hs hf h⟩
+
+example : Stream exampleRun ∧ WindowLocal (fCount 2 1) 2 1 ∧ (0:Int) ≤ 2 ∧ (0:Int) ≤ 1 :=
+  ⟨by decide, count_windowLocal 2 1, by decide, by decide⟩
+
+/-- on the example run the plugin yields chunks whose rows carry the whole-run neighbour counts
+(row 1 sees rows 0, 1, 2 within the window (2, 1): id 1·1000 + 3) — the same the real plugin yields,
+see the corpus of checks/props/c09.py -/
+example : ∃ outs, runOverlap (fCount 2 1) (2, 1) exampleRun = .ok outs ∧
+    ids (allRows outs) = [1, 1003, 2002, 3002, 4001] := by
+  obtain ⟨outs, h, hr⟩ := overlap_whole_total_partial (fCount 2 1) 2 1 exampleRun (by decide)
+    (count_windowLocal 2 1) (by decide) (by decide)
+  exact ⟨outs, h, by rw [hr]; decide⟩
+
+/-! ## 2. the key invariant of one call
+
+`S2 ++ P` are the rows of the input cache (`S2`: results sent, ending by `sent_until = s`; `P`:
+results pending, starting from `s` on), `X` the new chunk.  The call succeeds, sends the results
+of `Qo` and withholds those of `Qc` (`P ++ X.rows = Qo ++ Qc`); every sent row starts at or after the
+previous `sent_until` and ends by `invalid_beyond = X.stop − 2·wr − 1`, and is computed in a batch
+that contains every row within its window: on the left the cache only ever dropped rows `D2`
+ending by `sent_until − 2·wl − 1`, on the right unseen rows start at or after `X.stop`. -/
+theorem step_invariant (g : Row → List Row → Row) (hg : ∀ r ctx, (g r ctx).time = r.time ∧ (g r ctx).endt = r.endt)
+    (wl wr : Int) (hwl : 0 ≤ wl) (hwr : 0 ≤ wr) (rid : String) (o X : Chunk) (s : Int) (S2 P : List Row)
+    (hX : X.good = true) (hXr : X.runId = some rid) (ho : o.good = true) (hod : o.dataType = X.dataType)
+    (hor : o.runId = some rid) (hadj : o.stop = X.start) (hrows : o.rows = S2 ++ P) (hs1 : o.start ≤ s) (hs2 : s ≤ o.stop)
+    (hS2 : ∀ r ∈ S2, r.endt ≤ s) (hP : ∀ r ∈ P, s ≤ r.time) :
+    ∃ out cr ci Qo Qc D2 S2',
+      step1 (perRow wl wr g) (wl, wr) rid (some o) s X = .ok (out, cr, ci) ∧
+      P ++ X.rows = Qo ++ Qc ∧
+      out.rows = Qo.map (fun r => g r ((S2 ++ P ++ X.rows).filter (near wl wr r))) ∧
+      cr.rows = Qc.map (fun r => g r ((S2 ++ P ++ X.rows).filter (near wl wr r))) ∧
+      (∀ r ∈ Qo, s ≤ r.time ∧ r.endt ≤ X.stop - 2 * wr - 1) ∧
+      S2 ++ Qo = D2 ++ S2' ∧ ci.rows = S2' ++ Qc ∧
+      (∀ n ∈ D2, n.endt ≤ cr.start - 2 * wl - 1) ∧ (∀ r ∈ S2', r.endt ≤ cr.start) ∧ (∀ r ∈ Qc, cr.start ≤ r.time) ∧
+      s ≤ cr.start := by
+  obtain ⟨out, cr, ci, Qo, Qc, D2, S2', h1, h2, h3, h4, h5, h6, -, -, -, -, -, -, h7, h8, h9, h10, h11, h12⟩ :=
+    step1_good (g := g) hg hwl hwr (old := some o) (s := s) (S2 := S2) (P := P) hX hXr
+      (Or.inr ⟨o, rfl, ho, hod, hor, hadj, hrows, hs1, hs2⟩) hS2 hP
+  exact ⟨out, cr, ci, Qo, Qc, D2, S2', h1, h2, h3, h4,
+    fun r hr => ⟨h6 r (by simp [hr]), h5 r hr⟩, h8, h9, h10, h11, h12, h7⟩
+
+/-! ## 3. contiguity, for ALL inputs
+
+Whatever the input chunks and the computation are (no law, no locality needed): if the plugin
+yields `outs`, these tile the run — the first starts where the first input chunk starts, each
+starts where its predecessor ended, the last (the final flush) ends where the last input chunk
+ends; and there is exactly one output chunk per input chunk plus the final flush.  The only
+hypothesis is that every input chunk has `start ≤ end`, which `Chunk.__init__` guarantees. -/
+theorem overlap_contiguous (f : List Row → List Row) (w : Int × Int) (cs outs : List Chunk)
+    (hr : ∀ c ∈ cs, c.start ≤ c.stop) (h : runOverlap f w cs = .ok outs) :
+    ∃ c0 cl, cs.head? = some c0 ∧ cs.getLast? = some cl ∧ Tiles c0.start cl.stop outs ∧
+      outs.length = cs.length + 1 :=
+  runOverlap_tiles hr h
+
+example : (∀ c ∈ exampleRun, c.start ≤ c.stop) ∧
+    ∃ outs, runOverlap (fCount 2 1) (2, 1) exampleRun = .ok outs ∧ Tiles 0 20 outs ∧ outs.length = 5 := by
+  refine ⟨by decide, ?_⟩
+  obtain ⟨outs, h⟩ := overlap_total_partial (fCount 2 1) 2 1 exampleRun (by decide) (count_windowLocal 2 1)
+    (by decide) (by decide)
+  obtain ⟨c0, cl, h0, hl, ht, hlen⟩ := overlap_contiguous _ _ _ outs (by decide) h
+  simp only [exampleRun, List.head?_cons, Option.some.injEq] at h0
+  subst h0
+  simp only [exampleRun, List.getLast?_cons_cons, List.getLast?_singleton, Option.some.injEq] at hl
+  subst hl
+  exact ⟨outs, h, ht, hlen⟩
+
+/-! ## 4. multi-output plugins: mutually aligned outputs, for ALL inputs
+
+Whatever the input chunks and the computations are: every result a multi-output plugin yields —
+each regular one and the final flush — is a dict whose chunks share one `[start, end)`.  The
+only hypothesis is that the provided data types are pairwise different (they are the keys of a
+Python dict).  (The starts of the withheld chunks are equal because `do_compute` checks it after
+`cache_beyond`; the theorem shows that this check, together with splitting every output at the
+one agreed time, is enough for the sent chunks too, and that nothing stale survives in
+`cached_results`.) -/
+theorem multi_output_aligned (fs : List (String × String × (List Row → List Row))) (w : Int × Int)
+    (cs : List Chunk) (ds : List (Dict Chunk)) (hnd : (fs.map (·.1)).Nodup)
+    (h : runOverlapMulti fs w cs = .ok ds) :
+    ∀ d ∈ ds, ∀ p ∈ d, ∀ q ∈ d, p.2.start = q.2.start ∧ p.2.stop = q.2.stop := by
+  unfold runOverlapMulti at h
+  split at h; · cases h
+  split at h; · cases h
+  rename_i rid _
+  have hn : ((specN fs w rid).provides.map (·.1)) = fs.map (·.1) := by
+    simp [specN, List.map_map, Function.comp_def]
+  exact runDicts_multi (P := specN fs w rid) rfl (by rw [hn]; exact hnd) h
+
+/-- two outputs (neighbour count per row, gap groups) are pairwise different data types -/
+example : ((([("cnt", "k1", fCount 2 2), ("grp", "k2", fGap 2)] :
+    List (String × String × (List Row → List Row))).map (·.1))).Nodup := by decide
+
+/-! ## 5. where totality ends: the ten trials of `cache_beyond`
+
+For a multi-output plugin the plugin-does-not-fail half needs one more hypothesis: the ten
+passes of `cache_beyond` must suffice to find a common split time of all outputs.  They do not
+when two outputs interlock like bricks over a long stretch (pairs (0,1),(2,3),… against
+(1,2),(3,4),… over ≥ 24 touching rows): model and real plugin both answer `ValueError` (component
+`iter/ten-trials` of checks/props/c09.py; open finding `C09-ten-trials`, same family as D9).
+No theorem is claimed there. -/
 
 end Strax.C09
